@@ -72,12 +72,12 @@ type spec struct {
 }
 
 type outcome struct {
-	canary  bool
-	delta   map[string]string
-	err     error
-	panicV  any
-	doc     []byte
-	skipped string
+	canary   bool
+	delta    map[string]string
+	err      error
+	panicV   any
+	doc      []byte
+	skipped  string
 	reloaded bool
 }
 
@@ -418,6 +418,16 @@ func (c *checker) baselines() {
 				for _, k := range keys {
 					if k == "steps" {
 						continue
+					}
+					// only a document that is still valid without the key says something about the key
+					// (dropping e.g. `functions` makes the loader refuse the whole document)
+					if dd, _, _, derr := c.document(spec{Kind: "base", Profile: prof, Drop: k}, ""); derr == nil {
+						snap := environ()
+						_, lerr := dag.LoadYAML(dd)
+						restoreEnv(snap)
+						if lerr != nil {
+							continue
+						}
 					}
 					od := c.exec(spec{Kind: "base", Profile: prof, Entry: e.Name, Drop: k})
 					c.res.Evaluations++
